@@ -1045,16 +1045,24 @@ func (p *parser) scanGroupOpen() (*RegexNode, error) {
 						return nil, err
 					}
 
-					if !p.isCaptureSlot(capnum) {
+					if capnum == 0 {
+						return nil, p.getErr(ErrCapNumNotZero)
+					}
+					if p.maintainCaptureOrder {
+						// in capture-order mode the pre-scan booked this group under the decimal
+						// string of its number, in pattern order: capture into that slot
+						if name := strconv.Itoa(capnum); p.isCaptureName(name) {
+							capnum = p.captureSlotFromName(name)
+						} else {
+							capnum = -1
+						}
+					} else if !p.isCaptureSlot(capnum) {
 						capnum = -1
 					}
 
 					// check if we have bogus characters after the number
 					if p.charsRight() > 0 && p.rightChar(0) != close && p.rightChar(0) != '-' {
 						return nil, p.getErr(ErrInvalidGroupName)
-					}
-					if capnum == 0 {
-						return nil, p.getErr(ErrCapNumNotZero)
 					}
 				} else if p.isGroupNameStartChar(ch) {
 					capname, err := p.scanCapname()
